@@ -5,7 +5,7 @@
     (library-formatted and independently built images, short histories too)."""
 import c10, common
 
-CONE = ['Base/RExpr.v', 'Base/Bits.v', 'Model/Codec.v', 'Proofs/Geometry.v', 'Proofs/GenEq.v', 'Proofs/ArgProps.v', 'Proofs/GeqMore.v', 'Props/C02.v']
+CONE = ['Base/RExpr.v', 'Base/Bits.v', 'Model/Codec.v', 'Proofs/Geometry.v', 'Proofs/GenEq.v', 'Proofs/ArgProps.v', 'Proofs/GeqMore.v', 'Model/Flush.v', 'Proofs/FlushProps.v', 'Props/C02.v']
 
 
 def run(tier, seed, replay):
